@@ -1356,7 +1356,7 @@ def main():
             dict(axis="padding", n_ops=4, dtype="int8"),
             dict(axis="stride_ge4_ifm_width", n_ops=3, dtype="int8"),
             dict(axis="kernel_larger_than_ifm", n_ops=3),
-            dict(axis="dilation_hw", n_ops=3, dtype="int8"),
+            dict(axis="dilation_hw", n_ops=4, dtype="int8", dilations=[(3, 3), (3, 1), (1, 3), (6, 6)]),
             dict(axis="groups", n_ops=3, dtype="int8"),
             dict(axis="dw_mult", n_ops=3),
             dict(axis="dw_params", n_ops=3),
